@@ -9,7 +9,8 @@ namespace Einx.Compile
 
 theorem compile_fuse_facts (cfg : UCfg) (fc : FCfg) (g : Graph) (comp : Compiled) (hwf : g.WF = true)
     (h : compile cfg fc g = .ok comp) :
-    comp.grp = fuseAll fc comp.st comp.nblocks ∧ (outsOf comp.st.program).Nodup ∧ ∀ p ∈ comp.st.body, p.1 < comp.nblocks := by
+    comp.grp = fuseAll fc comp.st comp.nblocks ∧ (outsOf comp.st.program).Nodup ∧ (∀ p ∈ comp.st.body, p.1 < comp.nblocks) ∧
+      ∀ p ∈ comp.st.bodyS, InfoOK comp.st.vars p := by
   unfold compile at h
   simp only [bind, Except.bind] at h
   cases hs : getScopes g g.fuel with
@@ -37,11 +38,11 @@ theorem compile_fuse_facts (cfg : UCfg) (fc : FCfg) (g : Graph) (comp : Compiled
   have h0 : 0 < scopes.scopes.length := (getScopes_inv g g.fuel scopes hs).1
   have key : ∀ st' : GState, (st' = st ∨
         st' = ({ st with vars := st.vars ++ [{ block := 0, reuse := false }] } : GState).push none [(0, .assign st.vars.length obj false)]) →
-      (outsOf st'.program).Nodup ∧ ∀ p ∈ st'.body, p.1 < scopes.scopes.length := by
+      (outsOf st'.program).Nodup ∧ (∀ p ∈ st'.body, p.1 < scopes.scopes.length) ∧ ∀ p ∈ st'.bodyS, InfoOK st'.vars p := by
     intro st' hst
     rcases hst with rfl | rfl
-    · exact ⟨hsd.nd, hblk⟩
-    · refine ⟨?_, ?_⟩
+    · exact ⟨hsd.nd, hblk, hsd.info⟩
+    · refine ⟨?_, ?_, ?_⟩
       · rw [program_push]
         have : ({ st with vars := st.vars ++ [{ block := 0, reuse := false }] } : GState).program = st.program := rfl
         rw [this, outsOf_append, List.nodup_append]
@@ -56,12 +57,27 @@ theorem compile_fuse_facts (cfg : UCfg) (fc : FCfg) (g : Graph) (comp : Compiled
         rcases hp with hp | rfl
         · exact hblk p hp
         · exact h0
+      · intro p hp
+        rw [bodyS_push] at hp
+        have hv : (({ st with vars := st.vars ++ [{ block := 0, reuse := false }] } : GState).push none
+            [(0, Stmt.assign st.vars.length obj false)]).vars = st.vars ++ [{ block := 0, reuse := false }] := rfl
+        rw [hv]
+        rcases List.mem_append.1 hp with hp | hp
+        · have hp' : p ∈ st.bodyS := hp
+          exact (hsd.info p hp').append _ (fun o ho => hsd.lt o (mem_bodyS_outs hp' o ho))
+        · simp only [List.mem_singleton] at hp
+          subst hp
+          intro o ho
+          simp only [Stmt.outputVars, List.mem_singleton] at ho
+          subst ho
+          exact ⟨fun _ => by simp [blockOfV], by simp [Stmt.isImport]⟩
   have fin : ∀ (st' : GState) (cond : Prop) [Decidable cond] (mk : Compiled),
       mk.st = st' → mk.grp = fuseAll fc st' scopes.scopes.length → mk.nblocks = scopes.scopes.length →
       (st' = st ∨
         st' = ({ st with vars := st.vars ++ [{ block := 0, reuse := false }] } : GState).push none [(0, .assign st.vars.length obj false)]) →
       (if cond then (throw "RecursionError: Block.to_code" : Except String Unit) >>= fun _ => pure mk else pure mk) = .ok comp →
-      comp.grp = fuseAll fc comp.st comp.nblocks ∧ (outsOf comp.st.program).Nodup ∧ ∀ p ∈ comp.st.body, p.1 < comp.nblocks := by
+      comp.grp = fuseAll fc comp.st comp.nblocks ∧ (outsOf comp.st.program).Nodup ∧ (∀ p ∈ comp.st.body, p.1 < comp.nblocks) ∧
+        ∀ p ∈ comp.st.bodyS, InfoOK comp.st.vars p := by
     intro st' cond _ mk h1 h2 h3 h4 h5
     split at h5
     · simp [throw, throwThe, MonadExceptOf.throw, bind, Except.bind] at h5
